@@ -23,7 +23,8 @@ SHARED = {
             ("C06", "C06.idempotent-marking", None, "same: PossDup/OrigSendingTime marking happens on the frame that goes out")],
     "C05": [("C01", "C01.seqnum-selection", None, "a new message leaves with the allocated number only if the encoder selects it"),
             ("C08", "C08.commit-postdominates-dml", r"persist_msg", "'can be read back from the journal' needs the row and the counter to be committed when the send returns"),
-            ("C13", "C13.isolation", None, "the journal entry of this session must not be removable by an operation on another session / direction")],
+            ("C13", "C13.isolation", None, "the journal entry of this session must not be removable by an operation on another session / direction"),
+            ("C14", "C14.save-rewind-atomic", None, "a number handed out while the resend handler is suspended must not be handed out again after its restore")],
     "C06": [("C04", "C04.single-resend-request", r"_process_resend", "'the connection state is what it was before': serving a ResendRequest must not close a gap the peer has not filled"),
             ("C05", "C05.same-bytes", None, "a retransmission must itself be journaled, or the next ResendRequest for the range cannot be answered"),
             ("C13", "C13.isolation", None, "the rewind goes through set_seq_num: it may only touch this session's outbound tail"),
